@@ -264,6 +264,10 @@ func addVal(valA, valB Quantity) Quantity {
 }
 
 func subVal(valA, valB Quantity) Quantity {
+	// the negation of MinInt64 cannot be represented: valA - MinInt64 = (valA + MaxInt64) + 1
+	if valB == math.MinInt64 {
+		return addVal(addVal(valA, math.MaxInt64), 1)
+	}
 	return addVal(valA, -valB)
 }
 
